@@ -256,3 +256,88 @@ def simplify(t):
 def clear_caches():
     _rf_memo.clear()
     _canon_memo.clear()
+
+
+# ----------------------------------------------------------------------------
+# ring identities modulo hypotheses (equalities on the path condition used as rewrite rules)
+
+def _mono_deg(m):
+    return sum(e for _, e in m)
+
+
+def _mono_divides(d, m):
+    """d | m ; returns quotient monomial or None"""
+    dm = dict(m)
+    out = dict(m)
+    for (u, e) in d:
+        have = dm.get(u, 0)
+        if have < e:
+            return None
+        if have == e:
+            del out[u]
+        else:
+            out[u] = have - e
+    return tuple(sorted(out.items()))
+
+
+def rules_from_equalities(eqs):
+    """eqs: list of Bool terms of the form eq(a, b) with numeric sides.  Each polynomial equality  p == 0  with a unique
+    monomial of maximal total degree becomes the rule  lead -> -(p - c*lead)/c .  Sound for any subset of the hypotheses."""
+    rules = []
+    for t in eqs:
+        if t.op != 'eq' or t.args[0].sort == tm.B:
+            continue
+        try:
+            n, d = ratfun(tm.sub(t.args[0], t.args[1]))
+        except Exception:
+            continue
+        if not (len(d) == 1 and () in d) or not n or len(n) > 6:
+            continue
+        degs = sorted(((_mono_deg(m), m) for m in n), reverse=True)
+        if len(degs) > 1 and degs[0][0] == degs[1][0]:
+            continue
+        lead = degs[0][1]
+        if not lead:
+            continue
+        c = n[lead]
+        rest = {m: -v / c for m, v in n.items() if m != lead}
+        rules.append((lead, rest))
+    return rules
+
+
+def reduce_mod(p, rules, max_steps=20000):
+    if not rules:
+        return p
+    steps = 0
+    while True:
+        hit = None
+        for m in p:
+            for (lead, rest) in rules:
+                q = _mono_divides(lead, m)
+                if q is not None:
+                    hit = (m, q, rest)
+                    break
+            if hit:
+                break
+        if hit is None:
+            return p
+        steps += 1
+        if steps > max_steps:
+            return None
+        m, q, rest = hit
+        c = p[m]
+        p2 = dict(p)
+        del p2[m]
+        p = padd(p2, pmul({q: c}, rest))
+
+
+def equal_mod(a, b, eqs):
+    """a == b as rational functions modulo the polynomial equalities eqs (hypotheses). True / False(unknown)"""
+    n, _ = ratfun(tm.sub(a, b))
+    if not n:
+        return True
+    rules = rules_from_equalities(eqs)
+    if not rules:
+        return False
+    r = reduce_mod(n, rules)
+    return r is not None and not r
